@@ -193,8 +193,9 @@ def scenarios(tier):
         byname = dict(pairs("quick"))
         for nm in ("remove-vs-remove", "write-vs-remove", "write-vs-read", "write-vs-metadata", "write-vs-remove_hash", "write_hash-vs-exists", "remove-vs-read", "remove-vs-list"):
             add(nm, byname[nm], "warm", "sync", None)
-        # the two-writer conflicts (11 + 11 steps warm: 705 432 interleavings) at a higher bound instead
-        add("writers-same-key", byname["writers-same-key"], "warm", "sync", 4)
+        # the two-writer conflicts (11 + 11 steps on a warm cache = C(22,11) = 705 432 interleavings): one of them
+        # completely (no bound, brute force: no partial-order reduction is implemented), the other at bound 4
+        add("writers-same-key", byname["writers-same-key"], "warm", "sync", None)
         add("writers-different-keys-identical-content", byname["writers-different-keys-identical-content"], "warm", "sync", 4)
     return out
 
@@ -346,7 +347,7 @@ def main(tier, seed=0):
     merr = []
     per_sc = {}
     capped = False
-    budget = 240 if tier == "quick" else 3000
+    budget = 240 if tier == "quick" else 6000
     try:
         by_id = {sc["id"]: sc for sc in scs}
         gen = [{"sc": sc, "prefix": [], "expect": None} for sc in scs]
